@@ -167,7 +167,7 @@ def cmd_unit(args):
     if getattr(args, "json", False):
         print("HQJSON " + json.dumps({"unit": R.name, "status": R.status, "reason": R.reason[:600], "canary_failed": R.canary_failed,
                                       "verified_fns": len(R.verified_fns), "wall": round(R.wall, 1), "fns": sorted(R.fn_info.keys()),
-                                      "failures": [{"fn": f["fn"], "msg": f["msg"], "clause": (f.get("clause") or "")[:200], "clause_tags": f.get("clause_tags") or [], "rc": (f.get("fn_info") or {}).get("residual_closures", 0),
+                                      "failures": [{"fn": f["fn"], "msg": f["msg"], "clause": (f.get("clause") or "")[:200], "clause_tags": f.get("clause_tags") or [], "nl": (f.get("fn_info") or {}).get("n_loops", 0), "rc": (f.get("fn_info") or {}).get("residual_closures", 0),
                                                     "failed_requires": (f.get("failed_requires") or "")[:200]} for f in R.failures],
                                       "undecided": [{"fn": f.get("fn"), "msg": f["msg"][:200]} for f in R.undecided]}))
         return 0 if (R.status == "ok" and not R.failures and not getattr(A, "lost", None)) else 1
@@ -211,6 +211,7 @@ def cmd_rebaseline(args):
             "functions": sorted(R.verified_fns),
             "known_failing_functions": sorted({f["fn"] for f in R.failures}),
             "residual_closures": {n: i.get("residual_closures", 0) for n, i in sorted(R.fn_info.items()) if i.get("residual_closures", 0)},
+            "loops": {n: i.get("n_loops", 0) for n, i in sorted(R.fn_info.items()) if i.get("n_loops", 0)},
             "obligation_sites": {k: v["total"] for k, v in sorted(R.obligations.items())},
             "trusted_items": sorted({f"{k}:{n}" for (k, n, _) in R.trusted}),
         }
